@@ -2,6 +2,9 @@ package main
 
 import (
 	"fmt"
+	"os"
+	"regexp"
+	"runtime/debug"
 	"go/token"
 	"go/types"
 	"sort"
@@ -82,6 +85,7 @@ type Exec struct {
 	loopBodyOnly int
 	inputs []ModelTerm
 	pcNow  string
+	disabledAuto map[string]bool
 }
 
 func newExec(L *Loader, fn *ssa.Function, spec *FuncSpec) *Exec {
@@ -119,6 +123,9 @@ func (e *Exec) assume(c string) {
 	if c == "true" {
 		return
 	}
+	if os.Getenv("GOVC_DEBUG_BOUND") != "" && reBound.MatchString(c) && !strings.Contains(c, "(forall") && !strings.Contains(c, "(exists") {
+		debug.PrintStack()
+	}
 	e.emit("(assert " + c + ")")
 }
 
@@ -140,6 +147,8 @@ func (e *Exec) prelude() {
 	e.emit("(assert (= (slen str.empty) #x0000000000000000))")
 	e.emit("(assert (= (itype inil) 0))")
 }
+
+var reBound = regexp.MustCompile(`(^|[^A-Za-z0-9_])q_[A-Za-z0-9_]*!\d+`)
 
 // ---------------------------------------------------------------- heap
 
@@ -337,9 +346,10 @@ func (e *Exec) loadField(st *State, ref string, T types.Type, i int) Val {
 		arr := e.heapGet(st, fieldKey(T, f.Name(), k), arrSort(sRef, s))
 		terms = append(terms, sel(arr, ref))
 	}
+	joined := strings.Join(terms, ",")
 	v := unflatten(f.Type(), &terms)
-	if kindOf(f.Type()) == kSlice {
-		e.once("tinv:"+e.pcNow+":"+strings.Join(terms, ","), func() { e.assumeTypeInv(v, e.pcNow) })
+	if kindOf(f.Type()) == kSlice && !reBound.MatchString(joined) {
+		e.once("tinv:"+e.pcNow+":"+joined, func() { e.assumeTypeInv(v, e.pcNow) })
 	}
 	return v
 }
@@ -600,7 +610,7 @@ func (e *Exec) enabled(kind string) bool {
 }
 
 func (e *Exec) oblige(kind, anchor, pc, cond, pos, desc string) {
-	if cond == "true" {
+	if cond == "true" && kind != "recover-frame" {
 		return
 	}
 	base := fmt.Sprintf("%s/%s/%s", e.L.funcKeyShort(e.top), kind, anchor)
